@@ -450,6 +450,7 @@ type stats struct {
 	heights  map[int]int64               // proof lengths of genuine accepted members
 	maxN     uint64
 	probes   int64
+	bySrc    map[string]int64
 	distinct []uint64 // fingerprints of (accumulator, presented leaf, index, proof, flag) tuples over non-empty accumulators (deduplicated at the end)
 	nondec   map[string]int64      // v2txn role -> probes whose control did not pass
 	suppErr  map[string]int64
@@ -459,7 +460,7 @@ type stats struct {
 func newStats() *stats {
 	return &stats{asks: map[string]int64{}, verdicts: map[string]*[2]int64{}, kinds: map[string]map[string]int64{}, muts: map[string]int64{},
 		bases: map[string]int64{}, fields: map[string]map[string]int64{}, heights: map[int]int64{}, 
-		nondec: map[string]int64{}, suppErr: map[string]int64{}}
+		nondec: map[string]int64{}, suppErr: map[string]int64{}, bySrc: map[string]int64{}}
 }
 
 func (s *stats) note(door, role string, k kind, accepted bool) {
@@ -544,6 +545,7 @@ func judge(c *vlib.Ctx, st *stats, h *host, p probe, o judgeOpts) {
 	fp := fingerprint(h, p)
 	st.mu.Lock()
 	st.probes++
+	st.bySrc[p.src]++
 	if h.cs.Elements.NumLeaves > 0 {
 		st.distinct = append(st.distinct, fp)
 	}
